@@ -88,7 +88,14 @@ def check_roundtrip(inp):
     b = rt(a)
     return same(a, b) and f'{inp}: {same(a, b)}'
   if kind == 'bytes':
-    a = np.array([b'a', b'', b'\x00x', b'b'][:inp['n']], dtype=object).reshape(inp['shape'])
+    a = np.array([b'a', b'', b'\x00x', b'b', b'cc', b'd'][:inp['n']], dtype=object).reshape(inp['shape'])
+    lay = inp.get('layout', 'C')
+    if lay == 'F':
+      a = np.asfortranarray(a)
+    elif lay == 'T':
+      a = a.T
+    elif lay == 'strided':
+      a = np.concatenate([a, a], axis=-1)[..., ::2] if a.ndim else a
     return same(a, rt(a)) and f'{inp}: {same(a, rt(a))}'
   if kind == 'python':
     for v in (1, -2 ** 40, 1.5, True, None, 'str', b'by', 1 + 2j):
@@ -131,6 +138,9 @@ def sweep_roundtrip(tier, seed):
       yield dict(kind='jax', dtype=dt, shape=[])
   for n, sh in ((0, [0]), (1, [1]), (4, [4]), (4, [2, 2]), (0, [0, 3])):
     yield dict(kind='bytes', n=n, shape=sh)
+  for lay in ('F', 'T', 'strided'):
+    yield dict(kind='bytes', n=6, shape=[2, 3], layout=lay)
+    yield dict(kind='bytes', n=4, shape=[4], layout=lay)
   yield dict(kind='python')
   yield dict(kind='tree')
   for w in ('tuple', 'unicode_array', 'bytes_S_array', 'structured', 'aligned_struct', 'mixed_object',
